@@ -99,11 +99,9 @@ func (i IRI) MarshalJSON() ([]byte, error) {
 	if i == "" {
 		return nil, nil
 	}
-	b := make([]byte, 0)
-	JSONWrite(&b, '"')
-	JSONWriteS(&b, i.String())
-	JSONWrite(&b, '"')
-	return b, nil
+	b := bytes.Buffer{}
+	stringBytes(&b, []byte(i), false)
+	return b.Bytes(), nil
 }
 
 // UnmarshalBinary implements the encoding.BinaryUnmarshaler interface.
@@ -216,9 +214,9 @@ func (i IRIs) MarshalJSON() ([]byte, error) {
 	JSONWrite(&b, '[')
 	for k, iri := range i {
 		writeCommaIfNotEmpty(k > 0)
-		JSONWrite(&b, '"')
-		JSONWriteS(&b, iri.String())
-		JSONWrite(&b, '"')
+		bb := bytes.Buffer{}
+		stringBytes(&bb, []byte(iri), false)
+		JSONWrite(&b, bb.Bytes()...)
 	}
 	JSONWrite(&b, ']')
 	return b, nil
